@@ -10,7 +10,7 @@
    for the kernels listed at the end of this file, by a proof about the
    instruction list that tools/asm2prog.py regenerates from the .s files on
    every run, executed by the machine model of X86.v: see DESIGN.md 4.C13. *)
-From Strcase Require Import Base Utf8 Spec Kernels X86 X86NonASCII X86IndexByte.
+From Strcase Require Import Base Utf8 Spec Kernels X86 X86NonASCII X86IndexByte X86Count.
 From StrcaseGen Require Import AsmProg.
 
 Theorem C13_index_byte_generic : forall s c, wf s -> 0 <= c < 256 -> index_byte_generic s c = k_index_byte s c.
@@ -76,6 +76,34 @@ Print Assumptions C13_asm_index_byte.
 Example C13_asm_index_byte_runs :
   X86.run 8149 (repeat 97 37 ++ [75; 98; 107]) (fun _ => 107) 64 true true 107 prog_indexbyte_go122_amd64 300
           entry_indexbyte_go122_amd64_IndexByteString (init (fun _ => 12345)) = Done (Some 37).
+Proof. vm_compute. reflexivity. Qed.
+
+(* Count / CountString (count_go122_amd64.s, 271 instructions: POPCNT test, letter test, the counting body for
+   letters and the one for other needles, each with its small / end-of-page / SSE loop + masked tail / AVX2
+   64-byte loop + masked tail): on a CPU with POPCNT the run ends with the result slot holding the scalar
+   definition k_count s c — the number of i with s[i] == c or, for an ASCII letter c, s[i] equal to c's other
+   case; without POPCNT the wrapper tail-calls the Go fallback after two instructions (no load, no store), and
+   that fallback is C13_count_generic above. *)
+Theorem C13_asm_count : forall A s junk slot avx2 c r0,
+  4096 <= A -> A + X86.len s < two63 -> wf s ->
+  (exists fuel, X86.run A s junk slot avx2 true c prog_count_go122_amd64 fuel
+                  entry_count_go122_amd64_Count (init r0) = Done (Some (k_count s (c mod 256)))) /\
+  (exists fuel, X86.run A s junk slot avx2 true c prog_count_go122_amd64 fuel
+                  entry_count_go122_amd64_CountString (init r0) = Done (Some (k_count s (c mod 256)))) /\
+  X86.run A s junk slot avx2 false c prog_count_go122_amd64 3 entry_count_go122_amd64_Count (init r0) = Delegated /\
+  X86.run A s junk slot avx2 false c prog_count_go122_amd64 3 entry_count_go122_amd64_CountString (init r0) = Delegated.
+Proof.
+  intros A s junk slot avx2 c r0 HA Hl Hw. split; [|split; [|split]].
+  - exact (count_asm_byt A s junk slot avx2 true c HA Hl Hw r0 eq_refl).
+  - exact (count_asm_str A s junk slot avx2 true c HA Hl Hw r0 eq_refl).
+  - exact (count_asm_byt_nopopcnt A s junk slot avx2 false c r0 eq_refl).
+  - exact (count_asm_str_nopopcnt A s junk slot avx2 false c r0 eq_refl).
+Qed.
+Print Assumptions C13_asm_count.
+
+Example C13_asm_count_runs :
+  X86.run 8149 (repeat 97 70 ++ [75; 98; 107]) (fun _ => 107) 64 true true 107 prog_count_go122_amd64 400
+          entry_count_go122_amd64_CountString (init (fun _ => 12345)) = Done (Some 2).
 Proof. vm_compute. reflexivity. Qed.
 
 (* the premises are satisfiable and the machine really runs: a 40-byte argument ending 3 bytes before a page end *)
